@@ -192,7 +192,9 @@ class CFG(object):
 
     def can_reach_avoiding(self, src, dst_set, avoid, drop_back=False, drop_edges=()):
         """is some node of dst_set reachable from src without passing a node in avoid?  returns a witness path or None."""
-        g = self.view(drop_back=drop_back, drop_nodes=[a for a in avoid if a != src], drop_edges=drop_edges)
+        if src in set(avoid):
+            return None            # the source itself is a required node: every path trivially passes it
+        g = self.view(drop_back=drop_back, drop_nodes=list(avoid), drop_edges=drop_edges)
         for d in sorted(dst_set):
             if d in g and src in g and nx.has_path(g, src, d):
                 return nx.shortest_path(g, src, d)
